@@ -125,6 +125,10 @@ class Action(BaseForm):
 
     def __init__(self, left, right):
         """Initialise."""
+        if hasattr(self, "_left"):
+            # `Action.__new__` returned an operand that is itself an (already
+            # initialised) Action, e.g. Action(A, Coargument) -> A: leave it alone.
+            return
         BaseForm.__init__(self)
 
         self._left = left
